@@ -6,7 +6,7 @@ from .c01 import reply_ok
 
 ID = "C12"
 BUDGET = {"quick": 40, "thorough": 600}
-MAX_RUNS = {"quick": 1500, "thorough": 300000}
+MAX_RUNS = {"quick": 8000, "thorough": 300000}
 TECHNIQUE = "deterministic simulation: seeded/enumerated cut sets and truncation points on every handshake and frame stream the proxy reads, differential against an uncut twin tunnel in the same run"
 RULE = ("plans: message kind (HTTP CONNECT head, SOCKS5 greeting/auth/request interactive or pipelined, SOCKS4, SOCKS4a, upstream HTTP/SOCKS4/SOCKS5 replies, "
         "RPFM frames on an inline UDP-over-HTTP stream) x delivery (every cut set for messages <= 12 bytes in thorough, random cut sets, one byte at a time, glued "
@@ -157,21 +157,26 @@ def gen(rng, tier, i):
                     done += fl
                 else:
                     break
-            ops = [send(req), op("recv_http_head", label="reply"), send(stream[:k], cuts=cutset(rng, k, tier, i) if k > 1 else [], gap_ms=gap),
+            tcuts = cutset(rng, k, tier, i) if k > 1 else []
+            if len(tcuts) > 300:
+                gap = 1
+            ops = [send(req), op("recv_http_head", label="reply"), send(stream[:k], cuts=tcuts, gap_ms=gap, timeout_ms=600000),
                    op("sleep", ms=200), op("shutdown"), op("recv_eof", timeout_ms=20000, label="after", keep=65536)]
             sc.add_client("t-cut", li, ops, start_ms=10)
             meta.update({"frames": [f.hex() for f in complete], "all_frames": [f.hex() for f in frames], "trunc_at": k})
         else:
             cuts = cutset(rng, len(stream), tier, i)
+            if len(cuts) > 300:
+                gap = 1   # byte-wise delivery of a long stream: keep the whole transfer well inside every timeout
             # read as many reply frames as we sent (the origin echoes), then finish
-            rops = [op("recv_rpfm", timeout_ms=20000, label="echo%d" % k) for k in range(nfr)]
-            ops = [send(req), op("recv_http_head", label="reply"), op("par", w=[send(stream, cuts=cuts, gap_ms=gap), op("sleep", ms=500), op("shutdown")], r=rops)]
+            rops = [op("recv_rpfm", timeout_ms=600000, label="echo%d" % k) for k in range(nfr)]
+            ops = [send(req), op("recv_http_head", label="reply"), op("par", w=[send(stream, cuts=cuts, gap_ms=gap, timeout_ms=600000), op("sleep", ms=500), op("shutdown")], r=rops)]
             sc.add_client("t-cut", li, ops, start_ms=10)
             meta.update({"frames": [f.hex() for f in frames], "cuts": [cuts]})
     meta["cls"] = kind
     meta["cfgkey"] = "%s/%s" % (kind, str(meta.get("cuts", meta.get("trunc_at")))[:80])
     sc.meta = meta
-    sc.max_ms = 120000
+    sc.max_ms = 900000
     sc.cfg["timeouts"] = {"idle": 30, "udp": 30}
     return sc.plan(want_events=False)
 
